@@ -584,7 +584,7 @@ class FileSet:
             return self.collect(
                 time_args.start, time_args.stop, filters=filters,
             )
-        elif isinstance(time_args, (datetime, str)):
+        else:
             filename = self.find_closest(time_args, filters=filters)
             if filename is None:
                 return None
